@@ -70,6 +70,8 @@ Definition state_of (dir : bool) (fl : list (string * xcontent)) : cstate xconte
 
 (* one observed start *)
 Record start_obs := {
+  so_seq : list step;                         (* the calls made: import_seq for `import lingpy`, or any
+                                                 other sequence of load_dvt(path) / Model(name) calls *)
   so_ok : bool;                               (* returned (true) / raised (false) *)
   so_events : list event;                     (* full trace, or only the EDump of rewritten files *)
   so_vals : list (sval xvalue);               (* what the start handed out, in sequence order *)
@@ -91,8 +93,17 @@ Record cache_case := {
   cc_rounds : list round_obs
 }.
 
-Definition ximport := import_run xenc xdec xconv xscorer xdvt model_dirs import_seq.
-Definition xref : list (sval xvalue) := map (ref_val xconv xscorer xdvt model_dirs) import_seq.
+Definition ximport (seq : list step) := import_run xenc xdec xconv xscorer xdvt model_dirs seq.
+Definition xref (seq : list step) : list (sval xvalue) := map (ref_val xconv xscorer xdvt model_dirs) seq.
+
+Definition step_eqb (a b : step) : bool :=
+  match a, b with
+  | LoadDvt p, LoadDvt q => String.eqb (dvt_fn p) (dvt_fn q)     (* same cache entry *)
+  | NewModel m, NewModel n => String.eqb m n
+  | _, _ => false
+  end.
+(* every entry this sequence consults was consulted by the previous one *)
+Definition covered (prev seq : list step) : bool := forallb (fun st => existsb (step_eqb st) prev) seq.
 
 Definition dump_names (ev : list event) : list string :=
   flat_map (fun e => match e with EDump n => [n] | _ => [] end) ev.
@@ -110,7 +121,7 @@ Definition files_agree (names : list string) (s : cstate xcontent) (dir : bool)
 (* bit 0 *)
 Definition start_corr (full : bool) (names : list string) (dir : bool) (fl : list (string * xcontent))
            (o : start_obs) : bool :=
-  match ximport (state_of dir fl) with
+  match ximport (so_seq o) (state_of dir fl) with
   | Ok (s', ev, vs) =>
     so_ok o && events_agree full ev (so_events o) && list_eqb sval_eqb vs (so_vals o)
     && files_agree names s' (so_dir o) (so_files o)
@@ -118,12 +129,12 @@ Definition start_corr (full : bool) (names : list string) (dir : bool) (fl : lis
   end.
 
 (* bit 2: checker for  vals = reference values *)
-Definition vals_refb (o : start_obs) : bool := list_eqb sval_eqb (so_vals o) xref.
+Definition vals_refb (o : start_obs) : bool := list_eqb sval_eqb (so_vals o) (xref (so_seq o)).
 
 (* bit 3: checker for  clean : every consulted entry holds the complete pickle of its object *)
-Definition cleanb (dir : bool) (fl : list (string * xcontent)) : bool :=
+Definition cleanb (seq : list step) (dir : bool) (fl : list (string * xcontent)) : bool :=
   forallb (fun st => option_eqb xcontent_eqb (look (state_of dir fl) (path (entry_of st)))
-                                (Some (xenc (entry_val xconv xdvt st)))) import_seq.
+                                (Some (xenc (entry_val xconv xdvt st)))) seq.
 
 (* bit 4: checker for  quiet : nothing compiled, nothing written, files as before *)
 Definition same_files (names : list string) (dir : bool) (fl : list (string * xcontent))
@@ -141,25 +152,30 @@ Definition decb (fl : list (string * xcontent)) (obs : list (string * bool)) : b
                      end) obs
   && forallb (fun fc => existsb (fun fo => String.eqb (fst fo) (fst fc)) obs) fl.
 
-Fixpoint starts_code (full : bool) (names : list string) (first : bool) (dir : bool)
+(* prev = the sequence of the previous start of this round (None: the first start after damage);
+   bit 4 applies when the previous start consulted every entry this one consults *)
+Fixpoint starts_code (full : bool) (names : list string) (prev : option (list step)) (dir : bool)
          (fl : list (string * xcontent)) (l : list start_obs) : list bool * list bool * list bool * list bool * list bool :=
   match l with
   | [] => ([], [], [], [], [])
   | o :: tl =>
-    match starts_code full names false (so_dir o) (so_files o) tl with
+    match starts_code full names (if so_ok o then Some (so_seq o) else None) (so_dir o) (so_files o) tl with
     | (c0, c1, c2, c3, c4) =>
       (start_corr full names dir fl o :: c0,
        so_ok o :: c1,
        (negb (so_ok o) || vals_refb o) :: c2,
-       (negb (so_ok o) || cleanb (so_dir o) (so_files o)) :: c3,
-       (first || negb (so_ok o) || quietb names dir fl o) :: c4)
+       (negb (so_ok o) || cleanb (so_seq o) (so_dir o) (so_files o)) :: c3,
+       (match prev with
+        | None => true
+        | Some ps => negb (so_ok o) || negb (covered ps (so_seq o)) || quietb names dir fl o
+        end :: c4))
     end
   end.
 
 Definition all (l : list bool) : bool := forallb (fun b => b) l.
 
 Definition round_code (full : bool) (names : list string) (r : round_obs) : nat :=
-  match starts_code full names true (ro_dir r) (ro_files r) (ro_starts r) with
+  match starts_code full names None (ro_dir r) (ro_files r) (ro_starts r) with
   | (c0, c1, c2, c3, c4) =>
     bit 0 (all c0) + bit 1 (all c1) + bit 2 (all c2) + bit 3 (all c3) + bit 4 (all c4)
     + bit 5 (decb (ro_files r) (ro_dec r))
